@@ -27,8 +27,12 @@ func init() {
 		Run:     run,
 		Rule: "cases: Set/SetOne/Del/DelOne/Remove/RemoveOne/Modify/ModifyOne with paths from C05's generator (last fragment of every supported kind; slices, unions, wildcards, filters and descents in inner positions) on deep copies of unique-leaf trees, scalar and container replacement values, " +
 			"a scalar-rewriting modifier and an array-appending modifier, plus the slice lattice for Remove; after each call the data is compared with the state J's locations prescribe (exact for Remove, Del, Modify; postconditions for Set), *One forms must change at most one location, " +
-			"the gen twin must end in the corresponding state, the same request on jp.Keyed/jp.RemovableIndexed collections and (Remove) on typed Go slices must end in the state reached on maps and slices, and failures must be 'can not ...' errors, never panics. non-trivial: J selects at least one location or the path creates elements; distinct by digest of (operation, path, data)",
+			"the gen twin must end in the corresponding state, the same request on jp.Keyed/jp.RemovableIndexed collections and (Remove) on typed Go slices must end in the state reached on maps and slices, and failures must be 'can not ...' errors, never panics. also magnitudes at and near the int limits, and Remove/RemoveOne/Modify through $[?(@ op $[k])] and $.list[?(@ op $.list[k])] for every array over {1,2,3} of length 2-4 (a sample of length 5), every k and comparison. non-trivial: J selects at least one location or the path creates elements; distinct by digest of (operation, path, data)",
 		Assumptions: []string{
+			"removals happen innermost first and a filter further out is evaluated on the data as it is by then: for Remove/Del with a filter every state reached by removing, step by step, outermost selected locations of the current state is accepted, each step strictly nearer to the root than the one before (a bounded search; hitting the bound leaves the case undecided)",
+			"Set: a location above a member that the call creates may hold a container instead of the value (the inner location was written last)",
+			"Modify with <=, >=, == against an operand inside the filtered array replaces the operand's own element before the later comparisons: not run",
+			"the twin comparison requires Get to agree on every prefix of the path (Set creates members below what an inner fragment selects)",
 			"Del deletes object members and sets array elements to null in place (pinned by del_test.go); Remove removes and shifts",
 			"only the outermost of nested selected locations carry obligations (a replaced or removed ancestor makes the inner location disappear)",
 			"the state after an error return is not constrained (no atomicity is promised)",
